@@ -7,7 +7,8 @@ From Coq Require Import ZArith Bool List Lia ZifyBool.
 Import ListNotations.
 From Verif Require Import Model.Val Gen.Src_Task Gen.Src_TaskGraph Model.TaskGraph
   Proofs.TaskGraphP Proofs.TaskGraphP1 Proofs.TaskGraphP2 Proofs.TaskGraphP3 Proofs.TaskGraphP4
-  Proofs.TaskGraphP5 Proofs.TaskGraphP6 Proofs.TaskGraphP7 Proofs.TaskGraphP8 Proofs.TaskGraphP9.
+  Proofs.TaskGraphP5 Proofs.TaskGraphP6 Proofs.TaskGraphP7 Proofs.TaskGraphP8 Proofs.TaskGraphP9 Proofs.TaskGraphP11.
+From Verif Require Model.Graph.
 Open Scope Z_scope.
 
 (* exactly one child is released: the drawn one; it has a non-zero probability *)
@@ -97,6 +98,58 @@ Proof.
   unfold probs_refused, probs_rejected in Hs. lia.
 Qed.
 Print Assumptions C07_weights_at_most_one.
+
+(* ---- resolution at submission (JobGraph._generate_task_graph, jobs.py:839-861; model resolve_at_submission
+   over the JOB graph, breadth_first from Model/Graph.v) ----
+   `zeroed jg term u`  = u and the jobs breadth_first(u) yields before the first terminal job,
+   `zeroed_by .. k ks` = what the untaken children of ks reset, `touched .. c` = everything conditional c may write.
+   One conditional: outside its children and zeroed sets nothing changes (everything from the join on is
+   untouched), the zeroed jobs are at 0, the chosen child at 1 (unless an untaken sibling reaches it). *)
+Theorem C07_resolved_at_submission_step : forall jg term chosen ks den probs probs',
+  resolve_children jg term chosen ks den probs = Ok probs' ->
+  (forall n, ~ In n ks -> ~ In n (zeroed_by jg term chosen ks) -> al_get n probs' = al_get n probs) /\
+  (forall n, In n (zeroed_by jg term chosen ks) -> n <> chosen -> al_get n probs' = Some 0) /\
+  (In chosen ks -> ~ In chosen (zeroed_by jg term chosen ks) -> al_get chosen probs' = Some den).
+Proof. exact resolve_children_spec. Qed.
+Print Assumptions C07_resolved_at_submission_step.
+(* the whole pass, for conditionals whose writes do not overlap (pairs in sequence, a pair nested in a TAKEN
+   branch; any declaration order): every conditional has a child at probability 1 and its other children and
+   their zeroed sets at 0; every job no conditional touches keeps its probability *)
+Theorem C07_resolved_at_submission : forall adj terms conds den probs final,
+  resolve_at_submission adj terms conds den probs = Ok final ->
+  exists jg, Graph.of_mapping adj = Ok jg /\
+  (NoDup (Graph.nodes jg) -> independent jg (fun n => zmem n terms) (fun n => zmem n conds) (Graph.nodes jg) ->
+   (forall c, In c (Graph.nodes jg) -> In c conds ->
+      exists k, In k (Graph.children_of jg c) /\
+        (forall n, In n (zeroed_by jg (fun n => zmem n terms) k (Graph.children_of jg c)) -> n <> k -> al_get n final = Some 0) /\
+        (~ In k (zeroed_by jg (fun n => zmem n terms) k (Graph.children_of jg c)) -> al_get k final = Some den)) /\
+   (forall n, (forall c, In c (Graph.nodes jg) -> In c conds -> ~ In n (touched jg (fun n => zmem n terms) c)) ->
+              al_get n final = al_get n probs)).
+Proof. exact resolve_at_submission_spec. Qed.
+Print Assumptions C07_resolved_at_submission.
+(* two pairs in sequence, the DOWNSTREAM conditional (5) declared before the upstream one (1):
+   1 -> [2, 3] -> 4 (join) -> 5 -> [6, 7] -> 8 (join) *)
+Definition sub_seq : list (Z * list Z) := [(5, [6; 7]); (6, [8]); (7, [8]); (8, []); (1, [2; 3]); (2, [4]); (3, [4]); (4, [5])].
+Definition sub_probs : list (Z * Z) := map (fun n => (n, 16)) [1; 2; 3; 4; 5; 6; 7; 8].
+Example C07_resolved_at_submission_example :
+  exists jg, Graph.of_mapping sub_seq = Ok jg /\ NoDup (Graph.nodes jg) /\
+    independent jg (fun n => zmem n [4; 8]) (fun n => zmem n [1; 5]) (Graph.nodes jg) /\
+    resolve_at_submission sub_seq [4; 8] [1; 5] 16 sub_probs =
+      Ok [(1, 16); (2, 0); (3, 16); (4, 16); (5, 16); (6, 16); (7, 0); (8, 16)].
+Proof.
+  eexists. split; [vm_compute; reflexivity|]. split; [apply znodup_NoDup; vm_compute; reflexivity|].
+  split; [apply independentb_sound; vm_compute; reflexivity | vm_compute; reflexivity].
+Qed.
+(* without independence the statement fails: a pair nested in the UNTAKEN branch of 1 and declared after it:
+   1 -> [6, 2], 2 -> [3, 4] -> 5 (inner join) -> 7 (outer join), 6 -> 7.  1 chooses 6 and zeroes 2, 3, 4; then
+   2 is resolved and gives probability 1 to 4, a job inside the untaken branch of 1 (observation, replayed on
+   the real code by S-submission; what RUNS is still decided by notify_task_completion: C07_untaken) *)
+Definition sub_nested : list (Z * list Z) := [(1, [6; 2]); (2, [3; 4]); (3, [5]); (4, [5]); (5, [7]); (6, [7]); (7, [])].
+Theorem C07_resolved_at_submission_nested_refuted :
+  exists final, resolve_at_submission sub_nested [5; 7] [1; 2] 16 (map (fun n => (n, 16)) [1; 2; 3; 4; 5; 6; 7]) = Ok final /\
+    al_get 2 final = Some 0 /\ al_get 4 final = Some 16.
+Proof. eexists. split; [vm_compute; reflexivity|]. split; reflexivity. Qed.
+Print Assumptions C07_resolved_at_submission_nested_refuted.
 
 (* every child has probability 0 (all branches resolved away): nothing is released, every branch is cancelled *)
 Theorem C07_all_zero : forall g t fin draw g' rel canc,
